@@ -110,7 +110,8 @@ func schedBodies() (all []schedBody, firstCustom int) {
 		if op.mutates != "" || strings.HasPrefix(op.name, "S0=") || strings.HasPrefix(op.name, "S0,S1") || strings.HasPrefix(op.name, "B=") {
 			continue
 		}
-		if _, ok := op.run(newImmState()); !ok {
+		// not enabled in the initial state (they need a builder, retained bytes or retained arguments)
+		if strings.Contains(op.name, "B.NewValue") || strings.Contains(op.name, "Unmarshal(Bytes0)") || strings.Contains(op.name, "retained G") {
 			continue
 		}
 		out = append(out, schedBody{op.name, func(st *immState) string { return resultStr(op.run(st)) }})
@@ -547,18 +548,53 @@ func soloStepwise(u *U, b schedBody, globalsEvery int) (result string, steps int
 	return result, th.Steps, syncWrites
 }
 
+// soloCounted runs one body alone under the scheduler (no hook) and reports its result, its
+// number of statement boundaries, its synchronisation operations and whether the pool or a
+// package-level variable differs afterwards.
+func soloCounted(b schedBody) (result string, steps, syncOps int, dirty bool) {
+	st := newImmState()
+	fp0 := st.fingerprints()
+	g0 := fingerprintGlobals()
+	th := vs.NewThread(0, func() { result = b.run(st) })
+	vs.Activate(true)
+	kind := th.Run(0)
+	vs.Activate(false)
+	if kind == vs.Finished && th.Panic != nil {
+		result = fmt.Sprintf("thread panicked: %v", th.Panic)
+	}
+	fp1 := st.fingerprints()
+	for k, v := range fp0 {
+		if fp1[k] != v {
+			dirty = true
+		}
+	}
+	for k, v := range fingerprintGlobals() {
+		if g0[k] != v {
+			dirty = true
+		}
+	}
+	return result, th.Steps, th.SyncOps, dirty
+}
+
 func runC20S(c *Ctx) {
 	bodies, firstCustom := schedBodies()
 	c.Note("thread_bodies", fmtInt(len(bodies)))
-	bound := 1
+	// Tiers.  "full" scenarios get every schedule within the preemption bound; for the others
+	// (long bodies, quick tier only) the enumeration is reduced to the orders in which whole
+	// threads can run, which covers every schedule up to equivalence PROVIDED no thread writes
+	// shared memory or synchronises - exactly what phase 1 decides for every body (a write is
+	// a violation there), and what the cheap end-to-end test below re-checks per scenario: a
+	// scenario with a dirty or synchronising body is always explored in full.
+	fullLimit, bound2Limit := 1300, 140
 	globalsEvery := 16
 	perScenario := int64(60000)
 	if c.Thorough {
-		bound = 2
+		fullLimit, bound2Limit = 1<<30, 420
 		globalsEvery = 1
-		perScenario = 400000
+		perScenario = 2000000
 	}
-	c.Note("preemption_bound", fmtInt(bound))
+	c.Note("full_enumeration_when_statement_boundaries_at_most", fmtInt(fullLimit))
+	c.Note("preemption_bound_2_when_statement_boundaries_at_most", fmtInt(bound2Limit))
 	c.Note("globals_fingerprinted", fmt.Sprint(globalsAvailable))
 	// phase 1: solo, stepwise (one unit per body)
 	for i := range bodies {
@@ -568,19 +604,19 @@ func runC20S(c *Ctx) {
 			u.Eval(1)
 			u.Transition(steps)
 			u.Class("solo-stepwise")
-			if os.Getenv("VERIF_SCHED_DIAG") != "" {
-				u.c.Note("steps "+b.name, fmtInt(steps))
-			}
 			if sw > 0 {
 				u.Class("synchronised-write-seen")
+			}
+			if os.Getenv("VERIF_SCHED_DIAG") != "" {
+				u.c.Note("steps "+b.name, fmtInt(steps))
 			}
 			if u.WantSample() {
 				u.Sample(map[string]interface{}{"body": b.name, "statement_boundaries": steps, "result": trunc(res, 120)})
 			}
 		})
 	}
-	// phase 2: schedules.  Pairs (also of a body with itself); thorough: also triples over the
-	// forced-collision bodies.
+	// phase 2: schedules.  All unordered pairs (also of a body with itself) and triples over
+	// the forced-collision bodies.
 	var scs []*schedScenario
 	for i := range bodies {
 		for j := i; j < len(bodies); j++ {
@@ -588,45 +624,58 @@ func runC20S(c *Ctx) {
 		}
 	}
 	custom := bodies[firstCustom:]
+	stride := 5
 	if c.Thorough {
-		for i := 0; i < len(custom); i++ {
-			for j := i; j < len(custom); j++ {
-				for k := j; k < len(custom); k += 3 {
-					scs = append(scs, &schedScenario{custom[i].name + "  ||  " + custom[j].name + "  ||  " + custom[k].name, []schedBody{custom[i], custom[j], custom[k]}})
-				}
+		stride = 2
+	}
+	for i := 0; i < len(custom); i += stride {
+		for j := i; j < len(custom); j += stride {
+			for k := j; k < len(custom); k += stride {
+				scs = append(scs, &schedScenario{custom[i].name + "  ||  " + custom[j].name + "  ||  " + custom[k].name, []schedBody{custom[i], custom[j], custom[k]}})
 			}
 		}
-	} else if len(custom) >= 3 {
-		scs = append(scs, &schedScenario{"three threads: " + custom[0].name + " || " + custom[1].name + " || " + custom[2].name, []schedBody{custom[0], custom[1], custom[2]}})
 	}
 	c.Note("scenarios", fmtInt(len(scs)))
 	for _, sc := range scs {
 		sc := sc
 		c.Unit(func(u *U) {
-			// solo results and step counts (no hook)
 			solo := make([]string, len(sc.bodies))
+			total, special := 0, false
 			for i, b := range sc.bodies {
-				st := newImmState()
-				solo[i] = b.run(st)
+				r, steps, syncOps, dirty := soloCounted(b)
+				solo[i] = r
+				total += steps
+				if syncOps > 0 || dirty {
+					special = true
+				}
 			}
 			fp0 := newImmState().fingerprints()
 			st := &schedStats{outcomes: map[string]bool{}}
-			b := bound
-			if len(sc.bodies) > 2 && b > 1 {
-				b = 1
+			bound := 0
+			switch {
+			case special:
+				bound = 2
+				u.Class("scenario-with-writes-or-synchronisation")
+			case total <= bound2Limit && len(sc.bodies) == 2:
+				bound = 2
+			case total <= fullLimit && (len(sc.bodies) == 2 || total <= fullLimit/3):
+				bound = 1
 			}
-			complete := exploreSchedules(u, sc, solo, fp0, b, perScenario, st)
-			if !complete {
+			complete := exploreSchedules(u, sc, solo, fp0, bound, perScenario, st)
+			switch {
+			case !complete:
 				u.Class("scenario-capped")
 				u.c.res.Exhaustive = false
-			} else {
-				u.Class("scenario-complete")
+			case bound == 0:
+				u.Class("scenario-thread-orders-only")
+			default:
+				u.Class(fmt.Sprintf("scenario-all-schedules-bound-%d", bound))
 			}
 			if len(st.outcomes) > 1 {
 				u.Class("scenario-with-several-outcomes")
 			}
 			if u.WantSample() {
-				u.Sample(map[string]interface{}{"scenario": sc.name, "schedules": st.executions, "moot": st.moot, "statement_boundaries": st.steps, "bound": b, "distinct_outcomes": len(st.outcomes)})
+				u.Sample(map[string]interface{}{"scenario": sc.name, "schedules": st.executions, "moot": st.moot, "statement_boundaries": st.steps, "preemption_bound": bound, "distinct_outcomes": len(st.outcomes)})
 			}
 		})
 	}
